@@ -364,15 +364,19 @@ def resolve_globs(glob_path: str, root_path: str = None) -> list[str]:
     >>> resolve_globs('test') == [str(pathlib.Path(os.getcwd()) / 'test')]
     True
     """
+    # A pattern ending in a path separator matches directories only
+    dirs_only = glob_path.endswith(("/", os.sep))
     if not os.path.isabs(glob_path) and root_path:
         # pathlib cannot glob for the directory itself i.e. "." or "./"
         if os.path.normpath(glob_path) == ".":
             return [str(Path(root_path).resolve())]
-        return [str(p.resolve()) for p in Path(root_path).resolve().glob(glob_path)]
-    p = Path(glob_path).resolve()
-    root = p.anchor  # drive letter + root path
-    rel = str(p.relative_to(root))  # contains glob pattern
-    return [str(p.resolve()) for p in Path(root).glob(rel)]
+        paths = Path(root_path).resolve().glob(glob_path)
+    else:
+        p = Path(glob_path).resolve()
+        root = p.anchor  # drive letter + root path
+        rel = str(p.relative_to(root))  # contains glob pattern
+        paths = Path(root).glob(rel)
+    return [str(p.resolve()) for p in paths if not dirs_only or p.is_dir()]
 
 
 def only_dirs(paths: list[str]) -> list[str]:
